@@ -214,6 +214,22 @@ class C14(Campaign):
                 rules[-1]["ret"] = rnd.choice(["leak", 1, [9], {"k": 1}])
         return sc
 
+    def classify(self, sc, res, findings):
+        # a callback may RETURN an exception instance as an ordinary value: if the event raises that
+        # class although nothing was expected to fail, the value was mishandled (it is C14's business)
+        returned = {r_["ret"]["$exc"][0] for rules in sc["beh"].values() for r_ in rules
+                    if isinstance(r_.get("ret"), dict) and "$exc" in r_["ret"]}
+        for f in findings:
+            if f["kind"] == "op_exc":
+                d = f["detail"]
+                if d.get("expected") is None and (d.get("actual") or {}).get("cls") in returned:
+                    return [{"clause": "C14.result", "kind": "returned_exception_instance_raised", "op": f["op"],
+                             "detail": d}], []
+                break
+            if f["kind"] in self.DESYNC:
+                break
+        return super().classify(sc, res, findings)
+
     def evaluate(self, sc):
         if sc.get("senders"):
             from . import concurrent
